@@ -12,7 +12,7 @@ Theorem C06_pk1_from_cauchy_1D_2D : pk1_from_cauchy_stmt1 /\ pk1_from_cauchy_stm
 Proof. exact (conj pk1_from_cauchy_ok1 pk1_from_cauchy_ok2). Qed.
 Print Assumptions C06_pk1_from_cauchy_1D_2D.
 
-(* convertSecondPiolaKirchhoffStressDerivativeToFirstPiolaKirchoffStressDerivative(dS/dE, F, sigma(F)) is the Jacobian of F |-> P(F) = F.S(F), S(F) = S0 + X.E_GL(F), through the conversions of /repo (det F <> 0) -- 1D and 2D (3D: Properties_C06t6.v, thorough tier) *)
+(* convertSecondPiolaKirchhoffStressDerivativeToFirstPiolaKirchoffStressDerivative(dS/dE, F0, s0) is the Jacobian at F0 of F |-> F.S(F), S(F) = S(s0, F0) + X.(E_GL(F) - E_GL(F0)), S(s0, F0) = convertCauchyStressToSecondPiolaKirchhoffStress(s0, F0) (det F0 <> 0) -- 1D and 2D (3D: Properties_C06t6.v, thorough tier) *)
 Theorem C06_pk1_from_pk2_1D_2D : pk1_from_pk2_stmt1 /\ pk1_from_pk2_stmt2.
 Proof. exact (conj pk1_from_pk2_ok1 pk1_from_pk2_ok2). Qed.
 Print Assumptions C06_pk1_from_pk2_1D_2D.
